@@ -1,6 +1,7 @@
 from xdsl.context import Context
 from xdsl.dialects import builtin, linalg
 from xdsl.dialects.arith import AddiOp, ConstantOp, ExtSIOp, MaxSIOp, MinSIOp, MuliOp, ShRSIOp, SubiOp, TruncIOp
+from xdsl.ir import Block, BlockArgument, Operation, Region
 from xdsl.passes import ModulePass
 from xdsl.pattern_rewriter import (
     PatternRewriter,
@@ -80,13 +81,29 @@ class LowerLinalgBody(RewritePattern):
         if not isinstance(kernel_op.next_op, linalg.YieldOp):
             return
 
+        # the equivalent region takes the operands of the kernel op and the output as arguments,
+        # the body takes the inputs and outputs of the linalg op: map the one on the other
+        assert isinstance(kernel_op, Operation)
+        body = linalg_op.body.block
+        if not all(isinstance(operand, BlockArgument) and operand.owner is body for operand in kernel_op.operands):
+            return
+        equivalent_block = kernel_op.equivalent_region.block
+        new_body = Block(arg_types=[arg.type for arg in body.args])
+        new_args = [new_body.args[arg.index] for arg in kernel_op.operands if isinstance(arg, BlockArgument)]
+        new_args.append(new_body.args[-1])
+        for old_arg, new_arg in zip(tuple(equivalent_block.args), new_args, strict=True):
+            old_arg.replace_all_uses_with(new_arg)
+        for equivalent_op in tuple(equivalent_block.ops):
+            equivalent_op.detach()
+            new_body.add_op(equivalent_op)
+
         # replace linalg op
         rewriter.replace_op(
             linalg_op,
             linalg.GenericOp(
                 linalg_op.inputs,
                 linalg_op.outputs,
-                kernel_op.equivalent_region,
+                Region(new_body),
                 linalg_op.indexing_maps,
                 linalg_op.iterator_types,
                 linalg_op.result_types,
